@@ -14,9 +14,9 @@ class Selection(SxContract):
     """zero_rows: features whose (skip-)weight row is exactly zero (and, for the MLP, whose first-layer row is zero)."""
     max_paths = 5000
 
-    def __init__(self, family, n, d, K, zero_rows, h=2):
-        self.family, self.n, self.d, self.K, self.Z, self.h = family, n, d, K, tuple(zero_rows), h
-        self.label = f"{family}.selection[n={n},d={d},K={K},zero_rows={list(zero_rows)}]"
+    def __init__(self, family, n, d, K, zero_rows, h=2, w1_zero=()):
+        self.family, self.n, self.d, self.K, self.Z, self.h, self.W1Z = family, n, d, K, tuple(zero_rows), h, tuple(w1_zero)
+        self.label = f"{family}.selection[n={n},d={d},K={K},zero_rows={list(zero_rows)}" + (f",first-layer-only zero rows={list(w1_zero)}]" if w1_zero else "]")
         self.fn = {"sparse_linear": "gemclus.sparse._linear_sparse.SparseLinearModel.get_selection",
                    "sparse_mlp": "gemclus.sparse._mlp_sparse.SparseMLPModel.get_selection"}[family]
 
@@ -43,6 +43,8 @@ class Selection(SxContract):
             for f in self.Z:
                 m.W_skip_[f, :] = zero
                 m.W1_[f, :] = zero          # hierarchy: |W1[f,j]| <= M * ||W_skip[f]|| = 0  (C05 feasibility)
+            for f in self.W1Z:
+                m.W1_[f, :] = zero          # M = 0 (legal): the first layer is clipped to zero while the skip weights live on
             self.sel = m.W_skip_
         self.model = m
         return {"X": sx.sym_array(ctx, "x", (self.n, d))}
@@ -69,8 +71,8 @@ class Selection(SxContract):
                         yield f"unselected feature {f}: y[{i},{k}] independent of x[{i2},{f}]", prove.indep(out["y"][i, k], f"x_{i2}_{f}")
 
 
-def task(family, n, d, K, zero_rows, seed=0):
-    return run_sx(Selection(family, n, d, K, zero_rows), seed=seed)
+def task(family, n, d, K, zero_rows, seed=0, w1_zero=()):
+    return run_sx(Selection(family, n, d, K, zero_rows, w1_zero=w1_zero), seed=seed)
 
 
 # ------------------------------------------------------------------ FX: threshold flow in _update_weights
